@@ -379,10 +379,16 @@ def snref_call_sites(site):
     setattr(ref, name_attr, "t")
     ctx = SnRefContext(database=None)
     ctx.diag_layer = GhostCtxLayer(ddd)
+    named_table = None
     if where == "rows-of-the-table":
         tbl = _obj(Table, "tbl", 5)
         tbl._table_rows = NamedItemList(pool)
         ref._table = tbl
+        named_table = tbl
+        # (the rows of a table may be defined elsewhere and only be referenced by it: their own table is another one)
+        elsewhere = _obj(Table, "pool", 6)
+        for r in pool:
+            r._table = elsewhere
     elif where == "parameters-of-the-context":
         ctx.parameters = NamedItemList(pool)
     else:
@@ -399,6 +405,8 @@ def snref_call_sites(site):
         H.check("C10:snref-error-only-if-not-uniquely-resolvable", H.And(strict, count != 1))
         return
     bound = getattr(ref, bound_attr, None)
+    if named_table is not None:
+        H.check("C10:the-table-named-by-the-key-stays-bound", ref._table is named_table)
     if count == 1:
         H.cover("unique")
         H.check("C10:snref-binds-to-the-uniquely-named-object-of-its-context", bound is cands[0])
